@@ -198,6 +198,13 @@ def stack_shift_explains(cv):
             exp_c, exp_i = in_page((rsp0 - size) % (1 << 64), size), in_page(rsp0, size)
         else:
             exp_c, exp_i = in_page(rsp0, size), in_page((rsp0 + size) % (1 << 64), size)
+        if mn == "Ret" and exp_c and size == 8:
+            # ... and, for the CPU, the return address in *its* slot is canonical (else #GP at the RET itself; the emulator
+            # returned through the other slot)
+            off = rsp0 - start
+            vc0 = int.from_bytes(lcg(seed, ln)[off:off + 8], "little")
+            if (vc0 >> 47) not in (0, 0x1ffff):
+                exp_c = False
         return cok_ == exp_c and iok_ == exp_i
     ri = cv.first("regs")
     ir = [int(x, 16) for x in cv.impl[ri].split()]
